@@ -101,7 +101,10 @@ def exprs(r, tier):
                         continue
                     out.append('%s%s%s' % (lit_src(ka, a), op, lit_src(kb, b)))
     if tier == 'quick':
-        out = [e for i, e in enumerate(out) if i % 4 == 0]
+        out = [e for i, e in enumerate(out) if i % 4 == 0 or 'j' in e]
+    for a, b in itertools.product(['0', '1', '0.0', '2.5', 'True', 'False', '0j', '1j', '2.5j', '10j'], repeat=2):
+        for op in ('+', '-', '*'):
+            out.append('%s%s%s' % (a, op, b))
     n = 250 if tier == 'quick' else 6000
     for _ in range(n):
         out.append(gen_expr(r, r.choice([1, 2, 2, 3])))
